@@ -133,7 +133,20 @@ let labels_of_part (env : env) (p : string) : label list =
       if not (can_send env x) then [] else
       times (arg 2) (fun () ->
           if rejected x 'D' then send x KDataBad
-          else let k = enqueue (own env x) (arg 1) (arg 3) in send x (KOwn (arg 3 > 0, capk k)))
+          else begin
+            (* relay.data splits a payload larger than the peer's max frame size (16384 here) and runs
+               lock / enqueue / emit / unlock once per chunk; only the first chunk is preceded by the credit write *)
+            let len = arg 3 in
+            let rec chunks first rem =
+              if rem <= 0 && not first then []
+              else begin
+                let z = min rem 16384 in
+                let k = enqueue (own env x) (arg 1) z in
+                let l = send x (KOwn (first && len > 0, capk k)) in
+                l @ chunks false (rem - z - (if z = 0 then 1 else 0))
+              end in
+            chunks true len
+          end)
   | "cr" | "sr" ->
       let x = side_of hd.[0] in
       if not (can_send env x) then [] else
@@ -144,6 +157,12 @@ let labels_of_part (env : env) (p : string) : label list =
       let x = side_of hd.[0] in
       if not (can_send env x) then [] else
       let k = window_update (peer env x) (arg 1) (arg 2) in send x (KWin (false, capk k))
+  | "chb" | "shb" | "cpb" | "spb" ->
+      (* an invalid header block, whatever its carrier: the fragments before the last only fill headerBuffer
+         (no lock, no write: no label); the frame with END_HEADERS is the protocol error *)
+      send (side_of hd.[0]) KBad
+  | "CQ1" | "CQ2" | "CQ3" | "SQ1" | "SQ2" | "SQ3"
+  | "CW1" | "CW2" | "CW3" | "CW4" | "CW5" | "SW1" | "SW2" | "SW3" | "SW4" | "SW5" -> send (side_of hd.[0]) KBad
   | "cp" | "sp" -> send (side_of hd.[0]) KDirect
   | "CE1" | "CE2" | "CE3" | "SE1" | "SE2" | "SE3" -> send (side_of hd.[0]) KBad
   | "CC" ->
